@@ -1022,17 +1022,18 @@ func parseGetEntriesRange(r *http.Request, maxRange, logID int64) (int64, int64,
 		return 0, 0, fmt.Errorf("start (%d) and end (%d) is not a valid range", start, end)
 	}
 
-	count := end - start + 1
-	if count > maxRange {
+	// end - start cannot overflow for 0 <= start <= end; end - start + 1 and end + 1 can.
+	span := end - start
+	if span >= maxRange {
 		end = start + maxRange - 1
 	}
-	if *alignGetEntries && count >= maxRange {
+	if *alignGetEntries && span >= maxRange-1 {
 		// Truncate a "maximally sized" get-entries request at the next multiple
 		// of MaxGetEntriesAllowed.
 		// This is intended to coerce large runs of get-entries requests (e.g. by
 		// monitors/mirrors) into all requesting the same start/end ranges,
 		// thereby making the responses more readily cacheable.
-		d := (end + 1) % maxRange
+		d := (end%maxRange + 1) % maxRange
 		end = end - d
 		alignedGetEntries.Inc(strconv.FormatInt(logID, 10), strconv.FormatBool(d == 0))
 	}
